@@ -418,6 +418,22 @@ def opIntersect (j : Json) : Except String Json := do
     | none => Json.null
   pure (Json.mkObj [("hit", Json.arr res.toArray)])
 
+
+/-! ### C17: index space of the de Bruijn grid -/
+
+def opQuasi (j : Json) : Except String Json := do
+  let B ← nat (← field j "B")
+  let idx ← listOf ints (← field j "idx")
+  let edges ← listOf pairN (← field j "edges")
+  let gens ← listOf (fun g => do pure (← nat (← field g "pivot"), ← ints (← field g "vec"))) (← field j "gens")
+  if idx.any (fun x => x.length != B) then throw "index-length"
+  let bundles := edges.map fun e =>
+    match Quasi.starOf B (Quasi.subI (idx.getD e.2 []) (idx.getD e.1 [])) with
+    | some (b, neg) => jint (if neg then -(b : Int) - 1 else (b : Int) + 1)
+    | none => Json.null
+  pure (Json.mkObj [("edges_are_star", Json.bool (Quasi.edgesAreStar B idx edges)), ("bundles", Json.arr bundles.toArray),
+                    ("distinct", Json.bool (Quasi.allDistinct (idx.map (Quasi.reduce gens))))])
+
 def dispatch (op : String) (j : Json) : Except String Json :=
   match op with
   | "plaquettes" => opPlaquettes j
@@ -438,6 +454,7 @@ def dispatch (op : String) (j : Json) : Except String Json :=
   | "sampling" => opSampling j
   | "voro" => opVoro j
   | "intersect" => opIntersect j
+  | "quasi" => opQuasi j
   | "truncate" => opTruncate j
   | "metric" => opMetric j
   | "lateq" => opLatEq j
